@@ -336,7 +336,8 @@ META = dict(
     bounds=dict(quick="all 16 integer types over their full range, BOOLEAN, REAL32 (float32-representable) and REAL64 "
                       "(non-NaN), VISIBLE/UNICODE strings of length 0..6 (no trailing NUL, BMP without surrogates), "
                       "OCTET_STRING/DOMAIN of length 0..12; access by index, name, 'Record.Member', array member; three "
-                      "delivery disciplines; two nodes",
+                      "delivery disciplines; two nodes; sibling members written after each other; every frame delivered in a "
+                      "receive buffer that is overwritten once notify() has returned",
                 thorough="strings 0..12, byte strings 0..40 and 200"),
     outside_bounds=["real OS threads (1..8 client threads, python-can virtual bus)", "NaN payloads", "strings with trailing "
                     "NUL", "non-BMP text"],
